@@ -1,6 +1,7 @@
 import RotondaModel.Model.Codec
 /-! Line driver for the UPDATE codec model (C04).
 Case line:  `<stream> <asoctets> <hex PDU>`   stream = wf | mal (direct), bgp (BGP session call site), bmpd / bmpu (BMP Route Monitoring, Dumping / Updating phase), mrt, asoctets = 2 | 4.
+Variant flags: `padbits=`, `bmpeor=`, `mrtas=`, `overlap=` `as-written` | `repaired` (default as-written).
 Output:     `err`  or  `ok <events> | <attribute table>`; for `mal` only `ok` / `err` is compared. -/
 open Rotonda.Codec
 
@@ -52,7 +53,9 @@ def runCase (v : Variant) (line : String) : String :=
     | some bs =>
       let as4 := asn == "4"
       match (if stream == "bmpd" then runBmpDumping v as4 bs
-             else if stream == "mrt" then runMrt v as4 bs else run v as4 bs) with
+             else if stream == "mrt" then runMrt v as4 bs
+             else if stream == "bgp" || stream == "bmpu" then runCaller v as4 bs
+             else run v as4 bs) with
       | none => "err"
       | some es => if stream == "mal" then "ok ## " ++ showEvents es else showEvents es
   | _ => "bad-case"
@@ -65,5 +68,5 @@ partial def loop (v : Variant) (h : IO.FS.Stream) (out : IO.FS.Stream) : IO Unit
 
 def main (args : List String) : IO Unit := do
   let v : Variant := ⟨args.contains "padbits=repaired", !args.contains "bmpeor=repaired",
-    !args.contains "mrtas=repaired"⟩
+    !args.contains "mrtas=repaired", !args.contains "overlap=repaired"⟩
   loop v (← IO.getStdin) (← IO.getStdout)
